@@ -28,9 +28,10 @@ def make_scripted(history):
             super().__init__(log_level=LV, print_level=LV)
             self.history = history
             self.pointer = 0
+            self.limit = len(history)     # the run stops (all errors 0) when the pointer reaches the limit; raised for a continuation
 
         def table(self):
-            if self.pointer < len(self.history):
+            if self.pointer < min(len(self.history), self.limit):
                 return {(tuple(float(x) for x in e[0]), tuple(float(x) for x in e[1])): e[2] for e in self.history[self.pointer]}
             return {}
 
@@ -170,7 +171,9 @@ def build_real(config, comps, out_len, strategy, max_evaluations, tol=0.0, obser
     return r
 
 
-def build(config, history, comps, out_len, strategy="es", tol=0.5, perform_kwargs=None):
+def build(config, history, comps, out_len, strategy="es", tol=0.5, perform_kwargs=None, recalc_every=None, resume=None):
+    """resume = (k, how): the run is stopped after k scripted steps and continued for the remaining ones, how = "continue"
+    (continue_adaptive_refinement) or "container" (performSpatiallyAdaptiv(refinement_container=...))"""
     from sparseSpACE.spatiallyAdaptiveExtendSplit import SpatiallyAdaptiveExtendScheme
     from sparseSpACE.spatiallyAdaptiveCell import SpatiallyAdaptiveCellScheme
     from sparseSpACE.GridOperation import Integration
@@ -194,11 +197,14 @@ def build(config, history, comps, out_len, strategy="es", tol=0.5, perform_kwarg
     sa.log_util.set_log_level(LV)
     eo = make_scripted(history)
     r = Run()
-    r.sa, r.op, r.eo, r.config, r.snaps = sa, op, eo, config, []
+    r.sa, r.op, r.eo, r.config, r.snaps, r.steps = sa, op, eo, config, [], []
+    if recalc_every is not None:
+        sa.refinements_for_recalculate = recalc_every
     orig_eval, orig_refine = sa.evaluate_operation, sa.refine
 
     def eval_wrapper():
         orig_eval()
+        r.steps.append((np.array(op.get_result(), dtype=float).copy(), sa.get_total_num_points()))
         for i in range(sa.refinement.size()):
             sa.refinement.calc_error(i, sa.norm)
             sa.refinement.set_benefit(i)
@@ -246,8 +252,17 @@ def build(config, history, comps, out_len, strategy="es", tol=0.5, perform_kwarg
         sa.compute_benefits_for_operations = cb_wrapper
         sa.do_refinement = do_wrapper
 
+    if resume is not None:
+        eo.limit = min(resume[0], len(history))
     r.result = sa.performSpatiallyAdaptiv(config["lmin"], config["lmax"], eo, tol=tol, print_output=False,
                                           **(perform_kwargs or {}))
+    if resume is not None:
+        eo.limit = len(history)
+        if resume[1] == "continue":
+            r.result = sa.continue_adaptive_refinement(tol=tol)
+        else:
+            r.result = sa.performSpatiallyAdaptiv(config["lmin"], config["lmax"], eo, tol=tol, print_output=False,
+                                                  refinement_container=r.result[0], **(perform_kwargs or {}))
     if eo.pointer != len(history):
         raise HarnessError("adaptive loop executed %d of %d scripted steps" % (eo.pointer, len(history)))
     return r
